@@ -401,6 +401,7 @@ def run(ctx):
     ctx.ob("R13.4", "read|range-check", cmp_ok, rd.loc(), "a module with a preassigned range is renumbered from def->first_index and the result is compared with def->next_index")
     ctx.ob("R13.4", "read|anonymous-range", anon, rd.loc(), "a file without a preassigned range is appended at _next_index, which advances to the returned value")
     mapping_before_use(ctx)
+    _local_map_keys_agree(ctx)
 
 def mapping_before_use(ctx):
     """R13.5: merge_from translates every index of an incoming record with `remap`.  A record can refer to a shared type
@@ -475,3 +476,46 @@ def mapping_before_use(ctx):
         bad2.append(str(e))
     ctx.ob("R13.5", "merge_with|fully-defined-then-global-wins", not bad2, mw.loc(top), "; ".join(bad2[:3]) if bad2 else "the eight combinations agree with the documented rule")
 
+
+
+def _local_map_keys_agree(ctx):
+    """R13.6: "types with equal TRUE NAME are identified".  merge_from decides identity through a local name -> index map
+    of the types already loaded.  The accessor whose result keys the map when it is filled must be the accessor whose
+    result is looked up - and it must be the true name (the scoped name drops the scope of template arguments:
+    `util::Handle< Token >` vs `util::Handle< util::Token >`).  (Seed S6-C13.)"""
+    db = ctx.db
+    ctx.rule("R13.6", "in merge_from every key stored into or looked up in the local name->index map of loaded types is `<type>.get_true_name()`")
+    f = db.fn("InterrogateDatabase::merge_from")
+    maps = {}
+    for x in f.walk():
+        if x.get("k") == "decls":
+            for d in x["d"]:
+                if "map<" in (d.get("t") or "") + (d.get("ct") or "") and "string" in (d.get("t") or "") + (d.get("ct") or ""):
+                    maps[d["d"]] = d["n"]
+    n = 0
+    for c in f.walk():
+        if c.get("k") != "call" or "this" not in c and not c.get("opc"):
+            continue
+        cs = callee_short(c)
+        recv = None
+        key = None
+        if cs in ("find", "count", "erase", "at") and "this" in c and c.get("a"):
+            recv, key = c["this"], c["a"][0]
+        elif cs == "operator[]" and c.get("a"):
+            if "this" in c:
+                recv, key = c["this"], c["a"][0]
+            elif len(c["a"]) >= 2:
+                recv, key = c["a"][0], c["a"][1]
+        if recv is None:
+            continue
+        r = local_ref(recv)
+        if r is None or r.get("d") not in maps:
+            continue
+        n += 1
+        k = strip_casts(peel(key))
+        while k is not None and k.get("k") in ("ctor", "temp", "bind") and k.get("a"):
+            k = strip_casts(peel(k["a"][0]))
+        acc = callee_short(k) if k is not None and k.get("k") == "call" else None
+        ok = acc == "get_true_name"
+        ctx.ob("R13.6", "merge_from|%s.%s|key-is-true-name#%d" % (maps[r["d"]], cs, n), ok, f.loc(c), "`%s` keys the map with %s" % (show(c)[:60], (acc + "()") if acc else show(key)[:30]))
+    ctx.floor("R13.6", "accesses to the local name->index map in merge_from", n, 2)
